@@ -38,7 +38,7 @@ CLAIMED = {
          "trusted: cbmc 6.11.0 (MiniSat/CaDiCaL), byte-loop memcpy/memmove/memchr models, cbmc's memcmp/strlen models, vsnprintf contract, allocator model",
          "contract-style Hoare triples per operation checked by CBMC on bounded strings", "5/C06"),
  "C05": ("proof",
-         "UNBOUNDED: every intrusive-list primitive on an arbitrary heap (pool of 10 nodes with arbitrary links standing for a heap of any size): a_list_add_ and a_list_del_ proved against function contracts incl. frame (assigns clause), the add/del/set/mov/rot families proved with those two REPLACED by their contracts, the swap family over the bodies: from the consistent edges the documentation requires around the operands each primitive creates exactly the edges of the result and leaves every other link field of every node alone. BOUNDED: symbolic check of the intrusive list, singly linked list and queue code against abstract sequences: every list primitive (add/del/set/mov/rot/swap families) on rings of <= 3 nodes per list with all positions and aliasing patterns, every slist operation with the tail invariant, every queue operation (push/pull/insert/remove at all indices, indexed access from both ends, element swap incl. adjacent elements, whole-queue swap, sort_fore/back, push_sort, drop, setz, new/die/dtor) on queues of <= 3 elements with a symbolic recycle pool; after each operation the ring is walked and compared with the abstract sequence incl. node addresses (elements stay where they are), back links are checked, a recycled node is shown not to be enqueued; allocator may fail at every request.",
+         "UNBOUNDED: every intrusive-list primitive on an arbitrary heap (pool of 10 nodes with arbitrary links standing for a heap of any size): a_list_add_ and a_list_del_ proved against function contracts incl. frame (assigns clause), the add/del/set/mov/rot families proved with those two REPLACED by their contracts, the swap family over the bodies: from the consistent edges the documentation requires around the operands each primitive creates exactly the edges of the result and leaves every other link field of every node alone; likewise every singly-linked-list primitive with the local form of the tail invariant (a chain node has a null link exactly when it is the tail). BOUNDED: symbolic check of the intrusive list, singly linked list and queue code against abstract sequences: every list primitive (add/del/set/mov/rot/swap families) on rings of <= 3 nodes per list with all positions and aliasing patterns, every slist operation with the tail invariant, every queue operation (push/pull/insert/remove at all indices, indexed access from both ends, element swap incl. adjacent elements, whole-queue swap, sort_fore/back, push_sort, drop, setz, new/die/dtor) on queues of <= 3 elements with a symbolic recycle pool; after each operation the ring is walked and compared with the abstract sequence incl. node addresses (elements stay where they are), back links are checked, a recycled node is shown not to be enqueued; allocator may fail at every request.",
          "trusted: cbmc 6.11.0, allocator model; queue and singly linked list units are bounded stand-ins (not counted as discharged); glue from edges to abstract ring sequences on paper, cross-checked by the bounded ring units; known finding a_que_setz (listed)",
          "function contracts (DFCC enforce/replace) for the list primitives on an arbitrary heap + contract-style Hoare triples per operation on bounded linked structures", "5/C05"),
  "C07": ("other",
